@@ -81,6 +81,32 @@ var c12Alphabet = []string{"a", "b", "xs", "1", "0", "2.5", "1e3", "0x1F", "\"s\
 	"+", "-", "*", "/", "%", "^", "==", "!=", "<", "<=", ">", "&&", "||", "!", "?", ":", ".", ",", "(", ")", "[", "]", "{", "}", " ", "\n", "\t",
 	"if", "len", "get", "max", "string", "union", "print", "strtotime", "match", "isset", "晓", "é", "\\", "#", "@", "$", "~", "|", "&", "=", ";", "\x00", "\xff"}
 
+// host types that are recursive only through embedded (anonymous) fields
+type embTree struct {
+	*embTree
+	V int
+}
+
+type embA struct {
+	*embB
+	N float64
+}
+
+type embB struct {
+	*embA
+	S string
+}
+
+type embList struct {
+	embInner
+	Tail []embList
+}
+
+type embInner struct {
+	Up *embList
+	K  int
+}
+
 type selfRef struct {
 	Name string
 	Next *selfRef
@@ -138,7 +164,12 @@ func c12Hosts() map[string]interface{} {
 		}
 		cx17[k] = 1
 	}
+	embLoop := &embTree{V: 1}
+	embLoop.embTree = embLoop
 	return map[string]interface{}{
+		"embedded self pointer (nil)": embTree{V: 1}, "pointer to embedded self pointer": &embTree{embTree: &embTree{V: 2}, V: 1}, "embedded self pointer cycle": embLoop,
+		"embedded mutual recursion": embA{N: 1}, "embedded mutual recursion inside map": map[string]interface{}{"n": &embA{embB: &embB{S: "s"}, N: 1}},
+		"embedded struct with back pointer": embList{Tail: []embList{{}}}, "slice of embedded recursion": []embTree{{V: 1}, {V: 2}},
 		"typed map of 40 complex": cx, "typed map of 40 chan": ch, "typed map of 40 func": fn, "typed map of 40 uintptr": up, "typed map of 40 int": ok,
 		"typed map of 40 maps of complex": nested, "typed map of 15 complex": cx15, "typed map of 16 complex": cx16, "typed map of 17 complex": cx17,
 		"untyped nil": nil, "typed nil pointer": nilPtr, "pointer to nil pointer": pp, "pointer to pointer to nil pointer": ppp,
@@ -503,7 +534,7 @@ func runC12(c *run.Ctx) {
 func init() {
 	run.Register(&run.Spec{
 		ID: "C12", Run: runC12, Level: "exploration",
-		Rule: "Eval, Debug, Compile (vm and closure compilers) and the returned Callable driven with: random strings <= 64 runes over a 70-piece token / operator / quote / non-ASCII / NUL / invalid-UTF-8 alphabet and raw bytes; token-level mutations of generated programs with 20% failing sub-terms (run-time failures through Callable and Debug); 42 hostile host values (untyped nil, typed nil pointer, pointer to nil pointer, nil map / slice at top level and nested, chan, func, complex, uintptr, self-referential struct, map / slice containing itself, slices nested 100 / 101 / 5000 deep, *types.Env / *val.Env as host data, mixed / empty interface slices, non-string map keys, unexported fields); 31 nesting families (list / map nests around an object as call or operator argument, also as host data; open / balanced brackets, maps, objects, parentheses, calls, ternaries, unary / binary chains, member / subscript chains, strings, time literals) measured per depth d, and depth 100 / 500 / 2000; conditionals placed across the 64 KiB jump range size by size (21780..21880 list elements, four shapes, built as trees): refusal or the right value; " +
+		Rule: "Eval, Debug, Compile (vm and closure compilers) and the returned Callable driven with: random strings <= 64 runes over a 70-piece token / operator / quote / non-ASCII / NUL / invalid-UTF-8 alphabet and raw bytes; token-level mutations of generated programs with 20% failing sub-terms (run-time failures through Callable and Debug); 49 hostile host values (types recursive through embedded fields only, untyped nil, typed nil pointer, pointer to nil pointer, nil map / slice at top level and nested, chan, func, complex, uintptr, self-referential struct, map / slice containing itself, slices nested 100 / 101 / 5000 deep, *types.Env / *val.Env as host data, mixed / empty interface slices, non-string map keys, unexported fields); 31 nesting families (list / map nests around an object as call or operator argument, also as host data; open / balanced brackets, maps, objects, parentheses, calls, ternaries, unary / binary chains, member / subscript chains, strings, time literals) measured per depth d, and depth 100 / 500 / 2000; conditionals placed across the 64 KiB jump range size by size (21780..21880 list elements, four shapes, built as trees): refusal or the right value; " +
 			"monitor: any panic escaping an entry point; process death (stack exhaustion, fatal error) and stalls seen by the parent; logical cost = heap allocations (runtime.MemStats.Mallocs delta): single input <= 3e6 + 400 (n+10)^3, family growth ratio cost(d+1)/cost(d) < 1.7 for d > 8 (polynomial growth gives <= 1.42, doubling gives 2). distinct = distinct input",
 		Assume: []string{"termination is restated as bounded cost: no wall-clock reading enters a verdict; a stall is confirmed by re-running the case alone", "time and cost of the quadratic lexer are polynomial and therefore allowed"},
 		Builds: []string{"asan"}, SanFrac: 8,
